@@ -91,14 +91,18 @@ Print Assumptions C10_calls_terminate.
 
 (* while a call is inside a load - parked at "load:locked" or compiling any of its files - every other
    call waits: its step is refused; only the flag test of a production render can still be passed, and
-   that render is then refused at the lookup.  In particular no call returns anything during a load *)
+   that render is then refused as well: at the lookup if the flag was set (always so when the load in
+   progress is a load of all templates), for the lock if it was not (a filtered load on an engine that has
+   not loaded yet).  In particular no call returns anything during a load *)
 Theorem C10_waits_for_load : forall debug ops t0 evs j i,
   let s := reach debug ops t0 evs in
   pcs s j = PLocked -> i <> j ->
   step debug ops s i = None \/
   (debug = false /\ pcs s i = PStart /\ (exists n, ops i = ORender n) /\
-   step debug ops s i = Some (set_pc s i PAfterLoad) /\
-   step debug ops (set_pc s i PAfterLoad) i = None).
+   let p := if loaded s then PAfterLoad else PAfterCheck in
+   step debug ops s i = Some (set_pc s i p) /\
+   step debug ops (set_pc s i p) i = None /\
+   (is_empty (filter_of debug (ops j)) = true -> p = PAfterLoad)).
 Proof. exact waits_for_load. Qed.
 Print Assumptions C10_waits_for_load.
 
@@ -148,18 +152,68 @@ Theorem C10_prod_once : forall ops t0 evs,
 Proof. exact prod_once_reach. Qed.
 Print Assumptions C10_prod_once.
 
-(* cold start: however many first renders and explicit loads arrive, in every interleaving, every render
-   answers as the specification says (its template, or not found for an unknown name); an explicit load
-   succeeds or is told "again" *)
+(* cold start: however many first renders and explicit loads - loads of all templates AND filtered loads
+   of a template, a directory prefix or a missing name - arrive, in every interleaving, on a tree that
+   compiles: every render answers as the specification says (its template, or not found for an unknown
+   name); an explicit load succeeds, or, if it is a load of all templates, is told "again" *)
 Theorem C10_prod_cold_start_all_succeed : forall ops t0 evs,
-  full_loads ops -> dom_fs t0 = true -> good_under false [] t0 = true -> no_edits evs ->
+  dom_fs t0 = true -> good_under false [] t0 = true -> no_edits evs ->
   forall i r, pcs (reach false ops t0 evs) i = PDone r ->
     match ops i with
     | ORender n => r = spec_render false t0 n
-    | OLoad _ => r = RLoaded \/ r = RAgain
+    | OLoad f => r = RLoaded \/ (r = RAgain /\ is_empty f = true)
     end.
-Proof. exact cold_start_fixed. Qed.
+Proof. exact cold_start_fixed_any. Qed.
 Print Assumptions C10_prod_cold_start_all_succeed.
+
+(* filtered loads first: after ANY history in which only filtered explicit loads have been started (any
+   number, any interleaving, succeeding or failing, any file edits in between) the engine is not marked
+   loaded, and the first render - or the first load of all templates - loads everything from the tree as
+   it is then: exactly the compile of that tree is in place and answers the render; the filtered loads
+   before it change nothing about that *)
+Theorem C10_prod_filtered_first_harmless : forall ops t0 evs j t' m,
+  let s := reach false ops t0 evs in
+  (forall i, pcs s i <> PStart -> exists f, ops i = OLoad f /\ is_empty f = false) ->
+  wlock s = None -> pcs s j = PStart -> compile_dir false [] t' = COk m ->
+  (forall n, ops j = ORender n ->
+     let s4 := run false ops (set_fs s t') [EStep j; EStep j; EStep j; EStep j] in
+     pcs s4 j = PDone (lookup_result n (Some m)) /\ tpls s4 = Some m /\ loaded s4 = true /\ wlock s4 = None) /\
+  (ops j = OLoad [] ->
+     let s2 := run false ops (set_fs s t') [EStep j; EStep j] in
+     pcs s2 j = PDone RLoaded /\ tpls s2 = Some m /\ loaded s2 = true /\ wlock s2 = None).
+Proof. exact filtered_first_harmless. Qed.
+Print Assumptions C10_prod_filtered_first_harmless.
+
+Theorem C10_prod_only_filtered_not_loaded : forall ops t0 evs,
+  let s := reach false ops t0 evs in
+  (forall i, pcs s i <> PStart -> exists f, ops i = OLoad f /\ is_empty f = false) ->
+  loaded s = false.
+Proof. exact only_filtered_not_loaded. Qed.
+Print Assumptions C10_prod_only_filtered_not_loaded.
+
+(* a load of all templates - explicit, or by a first render in production mode - at any moment of any
+   history, whatever filtered or other loads put in place before: when it ends, exactly the files of the
+   tree version it saw are renderable, each under its name, every other name not found; both modes *)
+Theorem C10_full_load_exact : forall debug ops s i m,
+  pcs s i = PLocked -> is_empty (filter_of debug (ops i)) = true ->
+  compile_dir debug [] (fs s) = COk m ->
+  step debug ops s i = Some (finish_load debug ops s i) /\
+  tpls (finish_load debug ops s i) = Some m /\
+  (dom_fs (fs s) = true ->
+   forall n, lookup_result n (tpls (finish_load debug ops s i)) = spec_render debug (fs s) n).
+Proof. exact full_load_exact. Qed.
+Print Assumptions C10_full_load_exact.
+
+(* the counter-model: the machine before repair dd313c0, in which every load - a filtered one too - marks
+   the engine loaded.  A filtered load as the FIRST load of a production engine leaves every template
+   outside the filter "not found"; the repaired machine answers the same schedule as the specification says *)
+Theorem C10_filtered_first_unrepaired_refuted :
+  exists ops t0 evs i n r,
+    dom_fs t0 = true /\ good_under false [] t0 = true /\ no_edits evs /\
+    ops i = ORender n /\ pcs (reach_u false ops t0 evs) i = PDone r /\ r <> spec_render false t0 n /\
+    pcs (reach false ops t0 evs) i = PDone (spec_render false t0 n).
+Proof. exact filtered_first_unrepaired_refuted. Qed.
+Print Assumptions C10_filtered_first_unrepaired_refuted.
 
 (* the same with file edits during the cold start, as long as every version of the tree compiles:
    every render answers from the one template set *)
@@ -174,13 +228,17 @@ Theorem C10_prod_cold_start_with_edits : forall ops t0 evs,
 Proof. exact cold_start_good_histories. Qed.
 Print Assumptions C10_prod_cold_start_with_edits.
 
-(* forced hypotheses of the two theorems above *)
-Theorem C10_prod_filtered_load_refuted :
-  exists ops t0 evs i n r,
-    dom_fs t0 = true /\ good_under false [] t0 = true /\ no_edits evs /\
-    ops i = ORender n /\ pcs (reach false ops t0 evs) i = PDone r /\ r <> spec_render false t0 n.
-Proof. exact prod_filtered_load_refuted. Qed.
-Print Assumptions C10_prod_filtered_load_refuted.
+(* forced hypotheses: "never replaced" (C10_prod_once) needs full_loads - an explicit filtered load after the
+   load of all templates re-reads the files under its filter, which is what it is for; the cold start on a
+   tree that does not compile does not make every render succeed *)
+Theorem C10_prod_once_filtered_refuted :
+  exists ops t0 evs more m,
+    tpls (reach false ops t0 evs) = Some m /\
+    tpls (run false ops (reach false ops t0 evs) more) <> Some m /\
+    results (run false ops (reach false ops t0 evs) more) 3
+    = [PDone (ROk (B "OLD")); PDone RLoaded; PDone (ROk (B "NEW"))].
+Proof. exact prod_once_filtered_refuted. Qed.
+Print Assumptions C10_prod_once_filtered_refuted.
 
 Theorem C10_prod_cold_start_bad_tree_refuted :
   exists ops t0 evs i n r,
@@ -224,6 +282,17 @@ Theorem C10_debug_empty_name_refuted :
     ops i = ORender n /\ pcs (reach true ops t0 evs) i = PDone r /\ r <> spec_render true t0 n.
 Proof. exact debug_empty_name_refuted. Qed.
 Print Assumptions C10_debug_empty_name_refuted.
+
+(* ---- both modes, any calls (filtered loads included), any schedule, any file edits *)
+
+(* what a render prints was, at some moment of the history, what the file of exactly that name compiles
+   to: never another template's output, never something that was in no version of the tree *)
+Theorem C10_rendered_was_content : forall debug ops t0 evs,
+  (forall t, In t (t0 :: trees_of evs) -> dom_fs t = true) ->
+  forall i n out, ops i = ORender n -> pcs (reach debug ops t0 evs) i = PDone (ROk out) ->
+    exists t, In t (t0 :: trees_of evs) /\ spec_find debug t n = Some out.
+Proof. exact rendered_was_content. Qed.
+Print Assumptions C10_rendered_was_content.
 
 (* ---- failed loads *)
 
